@@ -6,6 +6,7 @@ import glob, json, os, subprocess, sys
 
 here = os.path.dirname(os.path.dirname(os.path.abspath(__file__)))
 dirs = [os.path.join(here, "seeded", a) for a in sys.argv[1:]] or sorted(glob.glob(os.path.join(here, "seeded", "C*")))
+also = json.load(open(os.path.join(here, "seeded", "also.json"))) if os.path.exists(os.path.join(here, "seeded", "also.json")) else {}
 for d in dirs:
     mp = os.path.join(d, "meta.json")
     if not os.path.exists(mp):
@@ -15,14 +16,18 @@ for d in dirs:
     patch = os.path.join(d, "patch-rebased.diff")
     if not os.path.exists(patch):
         patch = os.path.join(d, "patch.diff")
-    r = subprocess.run([os.path.join(here, "tools", "try_patch.sh"), patch, pid], capture_output=True, text=True)
-    out = r.stdout
-    if "PATCH DOES NOT APPLY" in out:
-        res = {"rc": -1, "note": "patch does not apply to the current tree (needs patch-rebased.diff)"}
-    else:
-        rc = int(out.strip().splitlines()[-1].split("rc=")[1]) if "rc=" in out else -2
-        res = {"rc": rc, "patch": os.path.basename(patch), "lines": [l for l in out.splitlines() if l.startswith(("VIOLATION", "MACHINERY"))][:2]}
-    meta["checks_run_current"] = {pid: res}
-    meta["checks_run"] = {pid: res} if res["rc"] in (0, 1) else meta.get("checks_run", {})
+    results = {}
+    for chk in [pid, *also.get(os.path.basename(d), [])]:
+        r = subprocess.run([os.path.join(here, "tools", "try_patch.sh"), patch, chk], capture_output=True, text=True)
+        out = r.stdout
+        if "PATCH DOES NOT APPLY" in out:
+            res = {"rc": -1, "note": "patch does not apply to the current tree (needs patch-rebased.diff)"}
+        else:
+            rc = int(out.strip().splitlines()[-1].split("rc=")[1]) if "rc=" in out else -2
+            res = {"rc": rc, "patch": os.path.basename(patch), "lines": [l for l in out.splitlines() if l.startswith(("VIOLATION", "MACHINERY"))][:2]}
+        results[chk] = res
+        print(os.path.basename(d), chk, res["rc"], res.get("patch", res.get("note")), flush=True)
+    meta["checks_run_current"] = results
+    if all(v["rc"] in (0, 1) for v in results.values()):
+        meta["checks_run"] = results
     json.dump(meta, open(mp, "w"), indent=1)
-    print(os.path.basename(d), res["rc"], res.get("patch", res.get("note")), flush=True)
